@@ -38,15 +38,43 @@ def main():
     sys.stdout, sys.stderr = cap, cap_err
     before = worldlib.snapshot()
     obs = {'aborted': None}
-    runner = Runner(defaults=spec.get('defaults', []), args=['prog'] + spec['args'],
-                    script_parts=spec.get('script_parts', ['-m', 'zope.testrunner']), cwd=spec.get('child_cwd', spec['dir']),
-                    **({'warnings': spec['warnings']} if 'warnings' in spec else {}))
+    kw = dict(defaults=spec.get('defaults', []), args=['prog'] + spec['args'],
+              script_parts=spec.get('script_parts', ['-m', 'zope.testrunner']), cwd=spec.get('child_cwd', spec['dir']),
+              **({'warnings': spec['warnings']} if 'warnings' in spec else {}))
+    via = spec.get('via', 'runner')
+    reported = None             # what the entry point tells its caller (return value / exit status)
+    if via == 'runner':
+        runner = Runner(**kw)
+    else:
+        # through the public entry points zope.testrunner.run_internal / run: the Runner they build is captured
+        import zope.testrunner
+        import zope.testrunner.runner as _rr
+        created = []
+        _orig_init = _rr.Runner.__init__
+
+        def _init(self, *a, **k):
+            created.append(self)
+            _orig_init(self, *a, **k)
+        _rr.Runner.__init__ = _init
     try:
-        runner.run()
+        if via == 'runner':
+            runner.run()
+        elif via == 'run_internal':
+            reported = bool(zope.testrunner.run_internal(**kw))
+        else:
+            try:
+                zope.testrunner.run(**kw)
+                reported = False          # run() is documented to exit the process
+                obs['no_exit'] = True
+            except SystemExit as e:
+                reported = bool(e.code)
     except BaseException as e:      # noqa: the observation is *whether* anything escapes
         import traceback as tb
         obs['aborted'] = type(e).__name__
         obs['aborted_tb'] = tb.format_exc()[-1500:]
+    if via != 'runner':
+        _rr.Runner.__init__ = _orig_init
+        runner = created[0]
     obs['std_restored'] = [sys.stdout is cap, sys.stderr is cap_err]
     after = worldlib.snapshot()
     sys.stdout, sys.stderr = real_stdout, sys.__stderr__
@@ -56,7 +84,8 @@ def main():
     def name(x):
         t = x[0] if isinstance(x, tuple) else x
         return str(t)
-    obs['failed'] = bool(runner.failed)
+    obs['failed'] = bool(runner.failed) if reported is None else reported
+    obs['via'] = via
     obs['ran'] = runner.ran
     obs['failures'] = [name(x) for x in runner.failures]
     obs['errors'] = [name(x) for x in runner.errors]
